@@ -27,9 +27,10 @@ NAMESETS = [
     ["s1l", "sel", "all_a", "_all_a"],
     ["them", "sel_them", "_them"],
     ["a", "ab", "abc", "_abc"],
+    ["a", "aa", "aba", "_aca"],  # prefix and suffix of a*a overlap in the name 'a'
 ]
 QUANT = ["1 of", "any of", "all of"]
-PATTERNS = ["them", "sel*", "*_a", "s*l", "*", "_*", "a*c", "*b*"]
+PATTERNS = ["them", "sel*", "*_a", "s*l", "*", "_*", "a*c", "*b*", "a*a"]
 BOUNDS = {"quick": dict(kA=3, kB=2, kC=2, kD=2), "thorough": dict(kA=4, kB=2, kC=2, kD=2, C_alphabet="full")}
 
 
